@@ -202,7 +202,8 @@ class Session(object):
                         if (me['total'] != o['entry']['total'] or me['first'] != o['entry']['first']
                                 or me['data'] != o['entry']['data'] or norm != [tuple(x) for x in o['entry']['valid']]):
                             ok = False
-                if [bytes.fromhex(x) for x in mo['delivered']] != dels:
+                # the model refreshes the reassembled primary block's CRC with a zero value: fill it in
+                if [fl.patch_crcs(bytes.fromhex(x)) for x in mo['delivered']] != dels:
                     ok = False
             rep = {'tag': tag, 'events': [[e[0], e[1].hex() if e[0] == 'recv' else e[1]] for e in events]}
             if not ok:
